@@ -174,4 +174,110 @@ fn run_trace(line: &str, dir: &str) -> String {
     log.join(" ; ")
 }
 
-pub fn lock_child(_args: &[String]) {}
+
+/// C13: contenders (threads of this process and child processes) race to open, use,
+/// drop and reopen one directory. Usage:
+///   rlharness lock <dir> <logfile> <threads> <procs> <rounds> <seed>
+pub fn lock_main(args: &[String]) {
+    let dir = args[0].clone();
+    let logfile = args[1].clone();
+    let threads: usize = args[2].parse().unwrap();
+    let procs: usize = args[3].parse().unwrap();
+    let rounds: usize = args[4].parse().unwrap();
+    let seed: u64 = args[5].parse().unwrap();
+    let _ = std::fs::remove_dir_all(&dir);
+    std::fs::create_dir_all(&dir).unwrap();
+    let _ = std::fs::remove_file(&logfile);
+    std::fs::write(&logfile, b"").unwrap();
+    let exe = std::env::current_exe().unwrap();
+    let mut kids = Vec::new();
+    for p in 0..procs {
+        let k = std::process::Command::new(&exe)
+            .args(["lockchild", &dir, &logfile, &threads.to_string(), &rounds.to_string(), &(seed + 1000 * (p as u64 + 1)).to_string()])
+            .spawn()
+            .unwrap();
+        kids.push(k);
+    }
+    lock_contend(&dir, &logfile, threads, rounds, seed);
+    for mut k in kids {
+        let _ = k.wait();
+    }
+    std::process::exit(0);
+}
+
+pub fn lock_child(args: &[String]) {
+    let threads: usize = args[2].parse().unwrap();
+    let rounds: usize = args[3].parse().unwrap();
+    let seed: u64 = args[4].parse().unwrap();
+    lock_contend(&args[0], &args[1], threads, rounds, seed);
+    std::process::exit(0);
+}
+
+fn lock_contend(dir: &str, logfile: &str, threads: usize, rounds: usize, seed: u64) {
+    use std::os::unix::io::IntoRawFd;
+    let f = std::fs::OpenOptions::new().append(true).open(logfile).unwrap();
+    let fd = f.into_raw_fd();
+    shim::start(dir);
+    shim::set_gate(false);
+    shim::LOCK_LOG_FD.store(fd, std::sync::atomic::Ordering::SeqCst);
+    let mut hs = Vec::new();
+    for t in 0..threads {
+        let dir = dir.to_string();
+        let h = std::thread::Builder::new()
+            .name(format!("contender{}", t))
+            .spawn(move || {
+                let mut x = seed.wrapping_mul(6364136223846793005).wrapping_add(1442695040888963407 + t as u64);
+                let mut rnd = move || {
+                    x ^= x << 13;
+                    x ^= x >> 7;
+                    x ^= x << 17;
+                    x
+                };
+                for r in 0..rounds {
+                    std::thread::sleep(std::time::Duration::from_micros(rnd() % 1500));
+                    let use_dump = rnd() % 4 == 0;
+                    shim::lock_log("h attempt");
+                    if use_dump {
+                        let cfg = std::sync::Arc::new(crate::make_config(&["100", "100000", "3", "100000", "1", "64"], &dir));
+                        match raft_log::Dump::<HT>::new(cfg) {
+                            Ok(d) => {
+                                shim::lock_log("h got dump");
+                                std::thread::sleep(std::time::Duration::from_micros(rnd() % 800));
+                                drop(d);
+                                shim::lock_log("h dropped");
+                            }
+                            Err(e) => shim::lock_log(&format!("h refused {}", kind_str(e.kind()))),
+                        }
+                    } else {
+                        match open_store(&["100", "100000", "3", "100000", "1", "64"], &dir) {
+                            OpenRes::Ok(mut s) => {
+                                shim::lock_log("h got store");
+                                let idx = {
+                                    let l = s.rl.log_state().last().cloned();
+                                    l.map(|x| x.1 + 1).unwrap_or(0)
+                                };
+                                let t2: Vec<String> = vec!["A".into(), "1".into(), idx.to_string(), "x6162".into()];
+                                let t3: Vec<&str> = t2.iter().map(|s| s.as_str()).collect();
+                                let (res, _) = exec_op(&mut s, &dir, &t3);
+                                shim::lock_log(&format!("h append {}", res));
+                                if r % 2 == 0 {
+                                    let (res, _) = exec_op(&mut s, &dir, &["F", "1"]);
+                                    shim::lock_log(&format!("h flush {}", res));
+                                }
+                                std::thread::sleep(std::time::Duration::from_micros(rnd() % 800));
+                                drop(s);
+                                shim::lock_log("h dropped");
+                            }
+                            OpenRes::Err(k) => shim::lock_log(&format!("h refused {}", kind_str(k))),
+                            OpenRes::Panic => shim::lock_log("h panic"),
+                        }
+                    }
+                }
+            })
+            .unwrap();
+        hs.push(h);
+    }
+    for h in hs {
+        let _ = h.join();
+    }
+}
